@@ -73,6 +73,10 @@ TwinClauses(e) ==
        ELSE {<<"C20.differs-from-solo-run", "none">>}
   ELSE {}
 
+(* C06 (like C05) is stated for the start-up registry: a frame encoded while its checksum service is removed keeps the *)
+(* caller's checksum, so its rendering is neither recorded as "the" rendering of the message nor compared with it      *)
+RegOK(T) == T \notin CsumTypes \/ ChecksumAlg(T) \in reg
+
 EncodeClauses(e) ==
   LET b == e.b
       pre == UB(b)
@@ -135,13 +139,13 @@ EncodeClauses(e) ==
   (* C06: append-only, context-free, repeatable (self-referential) *)
   (IF P("C06")
    THEN (IF ~IsPrefixOf(pre, e.post) THEN {<<"C06.append-only", "none">>} ELSE {})
-        \cup (IF e.res = "ok" /\ v \in DOMAIN F /\ IsPrefixOf(pre, e.post) /\ app # F[v]
+        \cup (IF e.res = "ok" /\ RegOK(T) /\ v \in DOMAIN F /\ IsPrefixOf(pre, e.post) /\ app # F[v]
               THEN {<<"C06.context-free",
                       IF T \in CsumTypes /\ Len(app) = Len(F[v]) /\ Take(app, Len(app) - 4) = Take(F[v], Len(app) - 4)
                          /\ CsumFieldOf(T, app) = Alg(ChecksumAlg(T), pre \o Take(app, Len(app) - 4))
                       THEN "FrameChecksum_OverUnread" ELSE "none">>}
               ELSE {})
-        \cup (IF e.res = "ok" /\ e.o \in DOMAIN last /\ IsPrefixOf(pre, e.post) /\ app # last[e.o]
+        \cup (IF e.res = "ok" /\ RegOK(T) /\ e.o \in DOMAIN last /\ IsPrefixOf(pre, e.post) /\ app # last[e.o]
               THEN {<<"C06.repeatable",
                       IF T \in CsumTypes /\ Len(app) = Len(last[e.o]) /\ Take(app, Len(app) - 4) = Take(last[e.o], Len(app) - 4)
                       THEN "FrameChecksum_OverUnread" ELSE "none">>}
@@ -398,13 +402,13 @@ Step(e) ==
                [] e.op \in {"decode", "next", "reset", "load", "cut", "scribble", "poke"} -> Put(lead, b, Len(e.post))
                [] e.op = "write" /\ Len(Q(b)) = 0 -> Put(lead, b, Len(e.post))
                [] OTHER -> lead
-  /\ F' = IF encOK /\ Len(pre) = 0 /\ v \notin DOMAIN F THEN Put(F, v, appended) ELSE F
+  /\ F' = IF encOK /\ RegOK(e.t) /\ Len(pre) = 0 /\ v \notin DOMAIN F THEN Put(F, v, appended) ELSE F
   /\ G' = IF e.op = "decode" /\ e.fresh /\ <<e.t, pre>> \notin DOMAIN G
           THEN Put(G, <<e.t, pre>>, [res |-> e.res, used |-> used, vpost |-> e.vpost]) ELSE G
   /\ src' = CASE decOK -> Put(src, o, Take(pre, used))
               [] e.op \in {"decode", "new", "newzero", "copy", "mutate"} /\ o \in DOMAIN src -> Del(src, o)
               [] OTHER -> src
-  /\ last' = CASE encOK -> Put(last, o, appended)
+  /\ last' = CASE encOK /\ RegOK(e.t) -> Put(last, o, appended)
                [] e.op \in {"decode", "new", "newzero", "copy", "mutate", "encode"} /\ o \in DOMAIN last -> Del(last, o)
                [] OTHER -> last
   /\ big' = IF e.op = "fill" THEN Put(big, b, e.args.runs) ELSE big
